@@ -142,6 +142,20 @@ def generate(rng, tier):
             toks = [f"method={rng.choice([0, 0, 1]) if kind == 'mesh' else 0}", f"speed={rng.randint(0, 10)},{rng.randint(0, 10)}"]
             info = {"expert": False, "req": {}, "track": False, "skip": None}
             cases.append(case(g, toks, info, ("gen:wrap-range-limit", f"range:{hi - lo - (2 ** 31 - 1):+d}")))
+    # ---- (a4) sequential meshes at the point counts where the raw index width switches (256; 65536 in the thorough tier)
+    for n in ([255, 256, 257, 65535, 65536, 65537] if thorough else [255, 256, 257]):
+        vals = bytes(rng.getrandbits(8) for _ in range(3 * n))
+        att = G.Attr(G.POSITION, G.DT["u8"], 3, False, 0, n, None, vals)
+        if n < 1000:
+            faces = [(i, (i + 1) % n, (i + 2) % n) for i in range(n)]
+        else:
+            faces = [(0, 1, 2), (n - 3, n - 2, n - 1), (n - 1, 0, n // 2), (255, 256, 257), (65534, 65533, 65532)]
+        g = G.Geom(True, n, faces, [att])
+        g.family = "index_width_boundary"
+        for cc in (0, 1):
+            toks = ["expert=1", "method=0", f"g:compress_connectivity={cc}", f"speed={rng.randint(0, 10)},{rng.randint(0, 10)}"]
+            info = {"expert": True, "req": {}, "track": False, "skip": None}
+            cases.append(case(g, toks, info, ("gen:index-width-boundary", f"points:{n}")))
     reps = 4 if thorough else 1
     for _ in range(reps):
         # ---- (b1) every method class x every encoder speed (decoder speed random)
